@@ -283,6 +283,27 @@ func generate(family string, rng *rand.Rand, thorough bool) []plan {
 				}
 			}
 		}
+		// the producer is done before the stage is created (a filled, closed buffered channel, as pipe.Seq hands one
+		// over), or has filled the buffer and goes on afterwards
+		for rep := 0; rep < 2*mul; rep++ {
+			for _, s := range seqStages(rng) {
+				cp := 1 + rng.Intn(5)
+				n := cp
+				if rep%3 == 2 {
+					n = cp + 1 + rng.Intn(3) // more than fits: the rest is sent while the stage runs
+				} else if rep%3 == 1 {
+					n = 1 + rng.Intn(cp)
+				}
+				add(plan{stage: s, icaps: []int{cp}, inputs: [][]int{anyInput(rng, n)}, sched: rnd(4, 2, 4, 0, 0, 0, nil), maxMoves: 30, drain: true, gen: "prefilled"})
+			}
+		}
+		// Take of "everything": any n >= 0, also one no input can reach
+		for rep := 0; rep < mul; rep++ {
+			big := []int{1 << 31, 1<<31 - 1, 1 << 40, 1<<62 + 12345, 1<<63 - 1}[rep%5]
+			for cp := 0; cp <= 2; cp++ {
+				add(plan{stage: &Stage{Kind: "take", N: big}, icaps: []int{cp}, inputs: [][]int{anyInput(rng, rng.Intn(6))}, sched: rnd(4, 2, 4, 0, 0, 0, nil), maxMoves: 30, drain: true, gen: "random"})
+			}
+		}
 		// Seq / ToSeq: identity
 		for r := 0; r < 6*mul; r++ {
 			xs := anyInput(rng, rng.Intn(7))
@@ -297,8 +318,9 @@ func generate(family string, rng *rand.Rand, thorough bool) []plan {
 			stages = append(stages,
 				&Stage{Kind: "join", N: 2},
 				&Stage{Kind: "join", N: []int{0, 1, 3}[rng.Intn(3)]}, // also no input at all: the output closes at once
-				&Stage{Kind: "unfold", N: rng.Intn(3), Seed: rng.Intn(3), A: 2, B: 1},
-				&Stage{Kind: "emit", N: rng.Intn(3), Freq: []int{0, 1, 3, 10}[rng.Intn(4)], A: 1, B: 0}, // also no pause at all
+				// every capacity in turn (0 first: a generator's very first send already needs the consumer)
+				&Stage{Kind: "unfold", N: rep % 3, Seed: rng.Intn(3), A: 2, B: 1},
+				&Stage{Kind: "emit", N: (rep + 1) % 3, Freq: []int{0, 1, 3, 10}[rng.Intn(4)], A: 1, B: 0}, // also no pause at all
 				&Stage{Kind: "throttle", Ops: rng.Intn(3) + 1, Freq: rng.Intn(5) + 2},
 				&Stage{Kind: "map", A: 1, B: 1, Fail: &Fail{Kind: "modeq", M: 3, R: 1}, Try: rng.Intn(2) == 0},
 				&Stage{Kind: "fmap", M: 3, Fail: &Fail{Kind: "modeq", M: 4, R: 1}, Try: rng.Intn(2) == 0},
@@ -386,6 +408,28 @@ func generate(family string, rng *rand.Rand, thorough bool) []plan {
 					}
 				}
 			}
+		}
+		// a failing Lift / LiftF whose error nobody ever reads (the consumer looks at the values only): the stage has
+		// reported it into its error channel, returned and closed both channels - at every capacity, 0 included
+		for r := 0; r < 3*mul; r++ {
+			cp := r % 3
+			bad := 3*rng.Intn(3) + 1 // = 1 mod 3
+			in := []int{bad, 5}
+			if r%2 == 1 {
+				in = []int{3, bad, 6} // a good element first
+			}
+			var st *Stage
+			if r%4 < 2 {
+				st = &Stage{Kind: "map", A: 1, B: 1, Fail: &Fail{Kind: "modeq", M: 3, R: 1}}
+			} else {
+				st = &Stage{Kind: "fmap", M: 3, Fail: &Fail{Kind: "modeq", M: 3, R: 1}}
+			}
+			var sc []intent
+			for range in {
+				sc = append(sc, intent{kind: "send", i: 0}, intent{kind: "recv", k: 0}, intent{kind: "recv", k: 0})
+			}
+			sc = append(sc, intent{kind: "recv", k: 0}, intent{kind: "close", i: 0}, intent{kind: "cancel"})
+			add(plan{stage: st, icaps: []int{cp}, inputs: [][]int{in}, sched: &scripted{script: sc}, maxMoves: 40, drain: false, gen: "absent-consumer"})
 		}
 		// Emit under Try whose function fails for ever from some index on (an exhausted source): after the cancel the
 		// error path must notice it too - the goroutine exits and both channels close, errors read or not
@@ -657,6 +701,49 @@ func generate(family string, rng *rand.Rand, thorough bool) []plan {
 				add(plan{stage: s, icaps: icaps, inputs: inputs, sched: rnd(4, 1, 3, 0, 0, 0, nil), maxMoves: 50, drain: true, gen: "random"})
 				add(plan{stage: s, icaps: icaps, inputs: inputs, sched: &random{rng: rng, wSend: 4, wClose: 1, wRecv: 3, closeEarly: true}, maxMoves: 50, drain: true, gen: "random-early-close"})
 			}
+		}
+		for rep := 0; rep < 4*mul; rep++ {
+			// a producer far ahead of the consumer: everything one input can take is sent before anything is received,
+			// then the consumer takes it all - nothing lost, nothing invented, per-input order kept
+			n := 1 + rep%2
+			icaps := make([]int, n)
+			inputs := make([][]int, n)
+			var sc []intent
+			for i := range icaps {
+				icaps[i] = rng.Intn(4)
+				inputs[i] = make([]int, 8+rng.Intn(8))
+				for j := range inputs[i] {
+					inputs[i][j] = 100*i + j + 1
+				}
+			}
+			for j := 0; j < 16; j++ {
+				for i := 0; i < n; i++ {
+					sc = append(sc, intent{kind: "send", i: i})
+				}
+			}
+			for j := 0; j < 6; j++ {
+				sc = append(sc, intent{kind: "recv", k: 0})
+			}
+			add(plan{stage: &Stage{Kind: "join", N: n}, icaps: icaps, inputs: inputs, sched: &scripted{script: sc}, maxMoves: 60, drain: true, gen: "producer-ahead"})
+			// very many inputs (any number of them): all but one end at once, the output stays open for the one
+			// that is left, delivers what it sends and closes with it
+			wide := []int{17, 18, 24, 40}[rep%4]
+			wcaps := make([]int, wide)
+			winputs := make([][]int, wide)
+			open := rng.Intn(wide)
+			winputs[open] = []int{100 * open, 100*open + 1, 100*open + 2} // the oracle reads the input of a value off its hundreds
+			var wsc []intent
+			for _, i := range rng.Perm(wide) {
+				if i != open {
+					wsc = append(wsc, intent{kind: "close", i: i})
+				}
+			}
+			wsc = append(wsc, intent{kind: "recv", k: 0})
+			for j := 0; j < 3; j++ {
+				wsc = append(wsc, intent{kind: "send", i: open}, intent{kind: "recv", k: 0})
+			}
+			wsc = append(wsc, intent{kind: "recv", k: 0}, intent{kind: "close", i: open}, intent{kind: "recv", k: 0})
+			add(plan{stage: &Stage{Kind: "join", N: wide}, icaps: wcaps, inputs: winputs, sched: &scripted{script: wsc}, maxMoves: 80, drain: true, gen: "many-inputs"})
 		}
 	case "C13":
 		for rep := 0; rep < 50*mul; rep++ {
